@@ -13,7 +13,10 @@ for d in /verif/seeded/*/; do
   id=$(python3 -c "import json;print(json.load(open('$d/meta.json'))['breaks_property'])")
   (cd $W && git checkout -q -- . && git apply $d/patch.diff 2>/dev/null) || { echo "$n: patch no longer applies (see meta.json note)"; continue; }
   out=$(cd /verif && timeout 1200 ./gpv check $id 2>&1); rc=$?
-  if [ $rc -eq 1 ]; then echo "$n: caught by $id ($(echo "$out" | grep -c '^VIOLATION') violation lines)"; else echo "$n: NOT CAUGHT by $id (exit $rc)"; bad=1; fi
+  exp=$(python3 -c "import json;print(json.load(open('$d/meta.json')).get('expected_uncaught',False))")
+  if [ $rc -eq 1 ]; then echo "$n: caught by $id ($(echo "$out" | grep -c '^VIOLATION') violation lines)";
+  elif [ "$exp" = "True" ]; then echo "$n: not caught by $id (exit $rc) - documented miss, see meta.json";
+  else echo "$n: NOT CAUGHT by $id (exit $rc)"; bad=1; fi
 done
 (cd $W && git checkout -q -- .)
 git -C /repo worktree remove --force $W
